@@ -535,6 +535,7 @@ fn build_graph(
 pub fn run_case(tape: &mut Tape, _tier: Tier, _p: &CaseParams) -> CaseOutcome {
   let mut out = CaseOutcome::default();
   let two = tape.draw(Stream::World, 2) == 1;
+  let mut barrel = false;
   let mut pkgs = vec![];
   if two {
     pkgs.push(gen_pkg(tape, "@a/b", Some("@c/d")));
@@ -562,6 +563,33 @@ pub fn run_case(tape: &mut Tape, _tier: Tier, _p: &CaseParams) -> CaseOutcome {
         .get_mut("/mod.ts")
         .unwrap()
         .push("export default function dflt(): boolean { return true; }".to_string());
+    }
+    // a barrel: a non-entry module of the first package re-exports the whole
+    // second package and the entrypoint names one of its types through the
+    // barrel (a named-subset trace that crosses into the other package)
+    if tape.draw(Stream::World, 3) == 2 {
+      pkgs[0]
+        .files
+        .insert("/barrel.ts".into(), vec!["export * from \"jsr:@c/d@1\";".to_string()]);
+      let m = pkgs[0].files.get_mut("/mod.ts").unwrap();
+      m.insert(0, "import type { X as BX } from \"./barrel.ts\";".to_string());
+      m.push("export function viaBarrel(x: BX): BX { return x; }".to_string());
+      // sometimes the barrel is the only way the first package reaches the
+      // second one
+      if tape.draw(Stream::World, 2) == 1 {
+        for f in pkgs[0].files.values_mut() {
+          f.retain(|l| {
+            !((l.contains("from \"jsr:") && !l.starts_with("export * from"))
+              || l.starts_with("export type Wrapped")
+              || l.starts_with("import type { Wrapped }")
+              || l.starts_with("export function wrap(")
+              || l.starts_with("export function viaExtra("))
+          });
+        }
+        let m = pkgs[0].files.get_mut("/mod.ts").unwrap();
+        m.retain(|l| !l.starts_with("export * from \"jsr:"));
+      }
+      barrel = true;
     }
     pkgs.push(dep);
   } else {
@@ -764,6 +792,9 @@ pub fn run_case(tape: &mut Tape, _tier: Tier, _p: &CaseParams) -> CaseOutcome {
   out.count("probe.cache_hit", stats.2);
   if with_member {
     out.count("probe.workspace_member_analysed", 1);
+  }
+  if barrel {
+    out.count("probe.cross_package_barrel", 1);
   }
   if use_dts {
     out.count("probe.declaration_files_compared_across_hash_seeds", 1);
